@@ -318,9 +318,17 @@ func (field *ColumnDescription) Dump() []byte {
 	data = append(data, 0, 0)
 
 	if field.DefaultValue != nil {
-		data = append(data, base.Uint64ToBytes(field.DefaultValueLength)...)
+		// the length of the default value is a length-encoded integer (ParseResultField reads it so), it was
+		// written as 8 raw bytes
+		data = append(data, base.PutLengthEncodedInt(field.DefaultValueLength)...)
 		data = append(data, field.DefaultValue...)
 	}
 
-	return append(field.header, data...)
+	// the header carries the payload length of the packet as it was received: the re-serialised definition can
+	// have another length (catalog replaced with "def", lengths re-encoded in the shortest form)
+	if len(field.header) != PacketHeaderSize {
+		return append(field.header, data...)
+	}
+	header := []byte{byte(len(data)), byte(len(data) >> 8), byte(len(data) >> 16), field.header[SequenceIDIndex]}
+	return append(header, data...)
 }
